@@ -490,11 +490,23 @@ def build(spec, logs=None, fault=None):
         else:
             kw['priority_classes'] = dict(spec['priorities'])
     if spec.get('ccm'):
-        kw['class_change_matrices'] = [{a: dict(row) for a, row in m.items()} for m in spec['ccm']]
+        # dictionaries are written in reverse key order for odd seeds: the meaning of a matrix must not depend on insertion order
+        rev = bool(spec['seed'] % 2)
+        def od(d_, f=lambda v: v):
+            keys = sorted(d_, reverse=rev)
+            return {k_: f(d_[k_]) for k_ in keys}
+        kw['class_change_matrices'] = [od(m, lambda row: od(row)) for m in spec['ccm']]
     if spec.get('cct'):
         kw['class_change_time_distributions'] = {a: {b: wrap(d, ('cct', a, b)) for b, d in row.items()} for a, row in spec['cct'].items()}
     if spec.get('syscap'):
         kw['system_capacity'] = spec['syscap']
+    if spec['seed'] % 2:
+        # per-class dictionaries in reverse insertion order: nothing may depend on the order the user wrote the classes in
+        for key in ('arrival_distributions', 'service_distributions', 'routing', 'batching_distributions', 'reneging_time_distributions', 'baulking_functions'):
+            if isinstance(kw.get(key), dict):
+                kw[key] = {c: kw[key][c] for c in sorted(kw[key], reverse=True)}
+        if isinstance(kw.get('priority_classes'), dict):
+            kw['priority_classes'] = {c: kw['priority_classes'][c] for c in sorted(kw['priority_classes'], reverse=True)}
     N = ciw.create_network(**kw)
     return N, sim_kwargs(spec)
 
